@@ -219,6 +219,46 @@ class Machine:
                           self.data(seq_after, {"added": added, "before": list(seq_before)}),
                           rank=len(seq_after))
 
+    # ------------------------------------------------------------ short-lived results
+    def check_lifetimes(self, first):
+        """History independence across object lifetimes: a chromosome that is executed again REPLACES its
+        execution result, the old one dies, and the allocator hands its address to the next result. For
+        every ordered pair (first, j) and every ordered triple (first, j, k) of alphabet tests: analyse a
+        short-lived result of `first`, drop it, then analyse short-lived results of j (and [j, k]): the
+        merge must be the one of the traces handed in, whatever was analysed (and freed) before."""
+        import copy
+
+        col = self.col
+        n = len(self.alphabet)
+
+        def fresh(i, how):
+            if how == "copy":
+                return copy.copy(self.results[i])
+            return self.lab.executor.execute(self.chroms[i].test_case)
+
+        for how in ("copy", "execute"):
+            for j in range(n):
+                for tail in [()] + [(k,) for k in range(n)]:
+                    seq2 = (j,) + tail
+                    want = self.canon.get(tuple(sorted(seq2)))
+                    if want is None:
+                        want = ref_merge(self.reg, [self.alphabet[i] for i in seq2])
+                    rs = [fresh(first, how) for _ in seq2]
+                    self.analyze_results(rs)
+                    del rs
+                    rs = [fresh(i, how) for i in seq2]
+                    got = self.td.projection(self.analyze_results(rs))
+                    del rs
+                    col.count("transitions", 2 * len(seq2))
+                    col.count("lifetime_sequences")
+                    if got != want:
+                        col.violation(f"C11|merge|lifetime|{self.diff_field(got, want)}",
+                                      f"registry {self.reg.name}: after analysing (and dropping) "
+                                      f"{len(seq2)} short-lived result(s) of test {first}, fresh results "
+                                      f"of {list(seq2)} merge to {got}, their traces to {want}",
+                                      self.data(seq2, {"leg": "lifetime", "first": first, "how": how}),
+                                      rank=len(seq2))
+
     # ------------------------------------------------------------ search
     def explore(self, first, max_len):
         col = self.col
@@ -328,6 +368,7 @@ def shard(col, reg_name, first, max_len, cap):
         return
     m = Machine(col, reg_name, cap)
     m.explore(first, max_len)
+    m.check_lifetimes(first)
     col.note(f"alphabet_{reg_name}", len(m.alphabet))
 
 
@@ -378,6 +419,9 @@ def replay(ctx, data):
     m = Machine(ctx.col, data["registry"], None)
     if data.get("alphabet_size") != len(m.alphabet):
         m = Machine(ctx.col, data["registry"], data.get("alphabet_size"))
+    if data.get("leg") == "lifetime":
+        m.check_lifetimes(data["first"])
+        return
     seq = tuple(data["sequence"])
     m.check_merge(seq)
     before = tuple(data.get("before", seq[:-1]))
